@@ -415,6 +415,14 @@ def rule_const(ctx: Ctx) -> RuleReport:
         chk(_guard_kind(ctx, z, g) == "<zip-flag:1>", "ZIP general purpose bit 0", ARCH, z.qual, norm(g.test), "the ZIP encryption test must mask exactly bit 0 of flag_bits")
     x = ctx.p.func(ENC, "is_xls_encrypted")
     # every positive exit of the record scan is under `record id == 0x002F` and nothing else about the record
+    # the scan looks at the record id for FILEPASS only: any other record-id test ends or diverts the scan early
+    rid = {c.left.id for st, g in _pos_exits(x.node.body, []) for t in g for c in ([t] if not isinstance(t, ast.BoolOp) else t.values) if isinstance(c, ast.Compare) and isinstance(c.left, ast.Name) and ctx.folder.fold(x.module, c.comparators[0]) == 0x002F}
+    for c in [n for n in walk_own(x.node) if isinstance(n, ast.Compare) and isinstance(n.left, ast.Name) and n.left.id in rid]:
+        v = ctx.folder.fold(x.module, c.comparators[0])
+        if v == 0x002F:
+            continue
+        chk(False, "record scan", ENC, x.qual, "record id also compared with " + (hex(v) if isinstance(v, int) else norm(c.comparators[0])),
+            f"is_xls_encrypted also tests the record id against {hex(v) if isinstance(v, int) else norm(c.comparators[0])}: the scan for FILEPASS must cover every record of the stream (a FILEPASS after an EOF / BOF boundary is otherwise missed)")
     exits = list(_pos_exits(x.node.body, []))
     if not exits:
         rep.fail(Finding("C08-CONST", ENC, x.qual, "?", "is_xls_encrypted has no positive exit"))
